@@ -213,7 +213,8 @@ pub fn frame(name: &str) -> Option<Frame> {
         // ---- INDEX -----------------------------------------------------------------------
         "INDEX.DEFINE" => fr(&[(Int, 1)], None, &[(Int, 1)], &[Int, Index]),
         "INDEX.CURRENT" | "INDEX.DESTINATION" => fr(&[(Index, 1)], None, &[], &[Int]),
-        "INDEX.INCREASE" => fr(&[(Index, 1)], None, &[], &[Index]),
+        // "Increases the current value by one if current < destination. Otherwise ... NOOP"
+        "INDEX.INCREASE" => fr(&[(Index, 1)], Some(|s| s.x[0].0 < s.x[0].1), &[], &[Index]),
         "INDEX.POP" => fr(&[], None, &[(Index, 1)], &[Index]),
         "INDEX.FLUSH" => fr(&[], None, &[(Index, ALLN)], &[Index]),
         // ---- vectors ---------------------------------------------------------------------
@@ -316,7 +317,8 @@ pub fn frame(name: &str) -> Option<Frame> {
             &[(Int, 1)],
             &[Int],
         ),
-        "GRAPH.NODE*SETSTATE" => fr(&[(Graph, 1), (Int, 2)], None, &[(Int, 2)], &[Int, Graph]),
+        // "If the id does not exist this acts as NOOP" (operands are consumed)
+        "GRAPH.NODE*SETSTATE" => fr(&[(Graph, 1), (Int, 2)], Some(|s| s.i[1] > 0 && s.g[0].has_node(s.i[1] as usize)), &[(Int, 2)], &[Int, Graph]),
         "GRAPH.NODE*STATESWITCH" => fr(
             &[(Graph, 1), (IV, 1), (BV, 1), (Int, 2)],
             None,
@@ -339,7 +341,19 @@ pub fn frame(name: &str) -> Option<Frame> {
         "GRAPH.NODE*PREDECESSORS" | "GRAPH.NODE*SUCCESSORS" | "GRAPH.NODE*NEIGHBORS" => {
             fr(&[(Graph, 1), (IV, 1), (Int, 1)], Some(|s| s.i[0] > 0), &[(IV, 1), (Int, 1)], &[IV, Int])
         }
-        "GRAPH.EDGE*ADD" | "GRAPH.EDGE*SETWEIGHT" => fr(&[(Graph, 1), (Float, 1), (Int, 2)], None, &[(Float, 1), (Int, 2)], &[Float, Int, Graph]),
+        // edges only between existing nodes, at most one per ordered pair; weights only of existing edges
+        "GRAPH.EDGE*ADD" => fr(
+            &[(Graph, 1), (Float, 1), (Int, 2)],
+            Some(|s| s.i[0] > 0 && s.i[1] > 0 && s.g[0].has_node(s.i[0] as usize) && s.g[0].has_node(s.i[1] as usize) && s.g[0].weight(s.i[1] as usize, s.i[0] as usize).is_none()),
+            &[(Float, 1), (Int, 2)],
+            &[Float, Int, Graph],
+        ),
+        "GRAPH.EDGE*SETWEIGHT" => fr(
+            &[(Graph, 1), (Float, 1), (Int, 2)],
+            Some(|s| s.i[0] > 0 && s.i[1] > 0 && s.g[0].weight(s.i[1] as usize, s.i[0] as usize).is_some()),
+            &[(Float, 1), (Int, 2)],
+            &[Float, Int, Graph],
+        ),
         "GRAPH.EDGE*GETWEIGHT" => fr(
             &[(Graph, 1), (Int, 2)],
             Some(|s| s.i[0] > 0 && s.i[1] > 0 && s.g[0].weight(s.i[1] as usize, s.i[0] as usize).is_some()),
